@@ -215,12 +215,13 @@ Fixpoint ms_loop (inner : Z -> bytes -> res (list message))
     end
   end.
 
-(* from_slice + from_vec with the decompressors plugged in; `depth` bounds the
-   nesting of compressed sets (Rust recursion: one stack frame per level). *)
+(* from_slice + from_vec with the decompressors plugged in; `depth` is the Rust argument of the same
+   name: the number of message set levels still decoded (MAX_COMPRESSION_DEPTH at the top-level call,
+   one less per nested compressed set, refused at 0). *)
 Fixpoint from_slice (cz : codecs) (depth : nat) (validate : bool) (req : Z) (bs : bytes)
   : res (list message) :=
   match depth with
-  | O => Err EOutOfFuel
+  | O => Err EUnsupportedCompression          (* fetch.rs: `if depth == 0 { return Err(UnsupportedCompression) }` *)
   | S d =>
       ms_loop (fun c v =>
                  if c =? COMPRESSION_GZIP then
